@@ -95,6 +95,11 @@ def gen_insert(eng, rng, n, target="main"):
         # (style names are unique per family across common and automatic styles in ODF:
         # the two kinds draw from disjoint pools; both pools repeat across families)
         pool = ["simA", "simB", "Standard", "Heading_20_1"] if kind != "automatic" else ["P1", "T1", "odfdo_auto_2", "odfdo_auto_7", "ta1"]
+        if kind != "automatic" and rng.chance(0.2, "oddname"):
+            # (style:name is an NCName: no blanks, quotes, &, <, > - names with those are not valid inputs.)
+            # A non-ASCII NCName; a style shown to the user under another name (style:display-name) and a
+            # second style whose NAME is that display name: two different styles
+            pool = ["Überschrift-1.a", "simInt", "simShown"]
         # simX / simY: common names in the receiving document that the other document may hold as
         # automatic styles of its styles.xml (each document valid on its own); once such a style has
         # been merged in, giving a common style that name again would be the caller's mistake
@@ -104,7 +109,7 @@ def gen_insert(eng, rng, n, target="main"):
             # font faces are declared per part (content.xml and styles.xml each have their
             # own office:font-face-decls, usually with the same names): separate pools, so
             # that the document-level lookup has one candidate
-            pool = ["simFA", "simFB"] if kind == "default" else ["simFC", "simFD"]
+            pool = ["simFA", "simFB"] if kind == "default" else ["simFC", "simFD", "Liberation Sans"]  # (the last one: declared in BOTH parts of every template)
         op["name"] = rng.choice(pool, "sname")
         op["name_via"] = rng.choice(["ctor", "arg"], "name_via")
     if fam in FACTORY_FAMILIES and kind == "common" and rng.chance(0.35, "factory?"):
@@ -143,6 +148,8 @@ def build_style(op):
         kw = {"width": f"{10 + n % 9}mm"}
     st = Style(fam, name=name, **kw)
     st.set_attribute("style:class", f"sim{n}")  # makes every inserted definition distinguishable
+    if op.get("name") == "simInt":
+        st.set_attribute("style:display-name", "simShown")
     return st
 
 
